@@ -34,6 +34,10 @@ rm -f $OUT
 [ "$(git -C $WT rev-parse HEAD)" = "$(git -C /repo rev-parse HEAD)" ] || echo "WARNING: worktree is not at /repo HEAD"
 cd /verif
 for c in "$@"; do
-  VERIF_REPO=$WT ./check $c 2>&1 | grep -E "^VIOLATION|^SUMMARY|^HARNESS|^NONREPRO|atom=" | cut -c1-260 | head -6
+  VERIF_REPO=$WT ./check $c > /tmp/seedtest_check.$$ 2>&1
+  echo "violations: $(grep -c '^VIOLATION' /tmp/seedtest_check.$$) nonreproducing: $(grep -c '^NONREPRO' /tmp/seedtest_check.$$) inconclusive: $(grep -c '^INCONCLUSIVE' /tmp/seedtest_check.$$)"
+  grep -E "^VIOLATION" -A1 /tmp/seedtest_check.$$ | cut -c1-260 | head -4
+  grep -E "^SUMMARY|^HARNESS" /tmp/seedtest_check.$$ | cut -c1-260
+  rm -f /tmp/seedtest_check.$$
 done
 git -C $WT checkout -q -- odc
